@@ -39,12 +39,12 @@ NONTRIVIAL_RULE = {
 
 ASSUMPTIONS = [
     "generated histories respect the asserted preconditions of the library (DESIGN.md section 3): calls only on active machines, ids < N, no no-arg succeed()/fail() from the root head",
-    "configuration space sampled by a fixed zoo of 19 machine types (N 1..64, head/headless, automatic/manual, 11 payload types incl. 320 bytes / 64-aligned, L in {1,2,3,4,5,6,7,12,255}, capacities 1..254, 4 context kinds, 0..5 injections, virtual and per-event-type overloads)",
+    "configuration space sampled by a fixed zoo of 20 machine types (N 1..70, head/headless, automatic/manual, 11 payload types incl. 320 bytes / 64-aligned, L in {1,2,3,4,5,6,7,12,255}, capacities 1..254, 4 context kinds, 0..5 injections, virtual and per-event-type overloads)",
     "search never establishes absence; counts below are what this run generated and executed",
 ]
 
 # cfgs with alignment >= 16 payloads (6, 9), injections (1,3,5,6,8,12), payload (all but 0,4,10,11)
-ALL_CFGS = list(range(19))
+ALL_CFGS = list(range(20))
 ZOO = {
     1: dict(profiles=["general", "guards", "serial"], quick=720000, thorough=8640000, fs=["ALL", "MIN"]),
     2: dict(profiles=["general", "guards"], quick=720000, thorough=8640000, fs=["ALL", "MIN"]),
@@ -52,13 +52,13 @@ ZOO = {
     4: dict(profiles=["guards"], quick=600000, thorough=7200000, fs=["ALL", "MIN"]),
     5: dict(profiles=["phases", "general"], quick=600000, thorough=7200000, fs=["ALL", "MIN"]),
     6: dict(profiles=["general", "guards", "plans"], quick=720000, thorough=8640000, fs=["ALL", "MIN"], probes=["const_plan"]),
-    7: dict(profiles=["general", "guards", "plans"], quick=720000, thorough=8640000, fs=["ALL", "MIN"], cfgs=[1, 2, 3, 5, 6, 7, 8, 9, 12, 14, 16, 17, 18], san=20000),
+    7: dict(profiles=["general", "guards", "plans"], quick=720000, thorough=8640000, fs=["ALL", "MIN"], cfgs=[1, 2, 3, 5, 6, 7, 8, 9, 12, 14, 16, 17, 18, 19], san=20000),
     8: dict(profiles=["plans"], quick=900000, thorough=10800000, fs=["ALL", ["PLANS"]]),
     9: dict(profiles=["plans"], quick=600000, thorough=7200000, cfgs=[0, 1, 3, 4, 6, 7, 8, 9, 11, 13, 16, 18], san=20000, fs=["ALL", ["PLANS"]]),
     10: dict(profiles=["plans"], quick=600000, thorough=7200000, probes=["plan_firstlast"], fs=["ALL", ["PLANS"]]),
     11: dict(profiles=["replica", "general", "guards"], quick=720000, thorough=8640000, fs=["ALL", ["HISTORY"]]),
     12: dict(profiles=["serial"], quick=600000, thorough=7200000, fs=["ALL", ["SERIAL"]]),
-    15: dict(profiles=["general", "phases"], quick=600000, thorough=7200000, fs=["ALL", "MIN"], cfgs=[1, 3, 5, 6, 8, 12, 16, 17, 18]),
+    15: dict(profiles=["general", "phases"], quick=600000, thorough=7200000, fs=["ALL", "MIN"], cfgs=[1, 3, 5, 6, 8, 12, 16, 17, 18, 19]),
     16: dict(profiles=["logging"], quick=360000, thorough=4320000, fs=["ALL", "VERBOSE", ["LOG"]]),
     17: dict(profiles=["fork", "general"], quick=360000, thorough=4320000, san=20000, fs=["ALL", "MIN"]),
     18: dict(profiles=["general", "plans", "guards"], quick=270000, thorough=3240000, san=30000, fs=["ALL", "MIN"]),
